@@ -6,8 +6,8 @@ from ..core import digest
 from ..modes import Mode
 
 ID = "C02"
-MODE_WEIGHTS = [("bool", 3), ("poly", 4), ("maxtimes", 2), ("maxplus", 1),
-                ("float", 5), ("real", 2), ("log", 1)]
+MODE_WEIGHTS = [("bool", 3), ("poly", 4), ("maxtimes", 2), ("maxplus", 2),
+                ("float", 5), ("real", 2), ("log", 2)]
 
 
 def pick_mode(rng, table=MODE_WEIGHTS):
@@ -19,8 +19,6 @@ def generate(rng, tier):
     mode = pick_mode(rng)
     ab = gen.grammar(rng, mode, tier)
     K = rng.choice([3, 4, 5]) if tier == "quick" else rng.choice([4, 6, 8])
-    if mode in ("maxplus", "log"):
-        K = 2
     scheds = [draw_schedule(rng, ab, gen, identity=(i == 0 and rng.random() < 0.5)) for i in range(K)]
     cap = 60 if tier == "quick" else 130
     strs = gen.strings(rng, ab, extra=4 if tier == "quick" else 8, cap=cap)
